@@ -8,7 +8,7 @@ From RPFT Require Import Base.Sexp Base.PyStr Base.PyStrFacts Base.Result Base.O
 Import ListNotations.
 Local Open Scope N_scope.
 
-Definition empty_cx : ctxremap := Build_ctxremap [] [] [] [].
+Definition empty_cx : ctxremap := Build_ctxremap [] [] [] [] false.
 Definition flow_cx : ctxremap := match flow_ctx with Some c => c | None => empty_cx end.
 
 (* a long form is a fixed point of the re-keying: it is neither a short header nor the
@@ -34,6 +34,8 @@ Definition short_long_ok : bool :=
     (* no long form is the column the row type is read from *)
     && forallb (fun sl => negb (str_eqb (snd sl) (cx_sw_column cx))) (cx_basic cx)
     && forallb (fun rf => negb (str_eqb (snd rf) (cx_sw_column cx))) (cx_sw_table cx)
+    (* the row types of the table carry no surrounding whitespace themselves *)
+    && forallb (fun rf => str_eqb (strip (fst rf)) (fst rf)) (cx_sw_table cx)
   | None => false
   end.
 
@@ -59,6 +61,7 @@ Lemma tables_facts :
 Proof.
   pose proof short_long_ok_true as H. unfold short_long_ok in H.
   rewrite flow_ctx_some in H.
+  apply andb_prop in H; destruct H as [H _].
   apply andb_prop in H; destruct H as [H H8]. apply andb_prop in H; destruct H as [H H7].
   apply andb_prop in H; destruct H as [H H6]. apply andb_prop in H; destruct H as [H H5].
   apply andb_prop in H; destruct H as [H H4]. apply andb_prop in H; destruct H as [H H3].
@@ -84,15 +87,41 @@ Proof.
   - apply long_fixed_h2f. apply (proj1 tables_facts short long). apply oget_in. exact H.
 Qed.
 
-(* 4b. `message_text` stands for the main argument of the row's type: for EVERY row type of the table *)
+(* the row types of the table are their own lookup keys, on either tree *)
+Lemma table_keys_stripped r f : In (r, f) (cx_sw_table flow_cx) -> strip r = r.
+Proof.
+  pose proof short_long_ok_true as H. unfold short_long_ok in H. rewrite flow_ctx_some in H.
+  apply andb_prop in H; destruct H as [_ H]. rewrite forallb_forall in H.
+  intros Hin. specialize (H (r, f) Hin). cbn [fst] in H. apply str_eqb_eq in H. exact H.
+Qed.
+
+Lemma sw_key_table r f : oget str_eqb (cx_sw_table flow_cx) r = Some f -> sw_key flow_cx r = r.
+Proof.
+  intros H. unfold sw_key. destruct (cx_sw_strip flow_cx); [|reflexivity].
+  apply (table_keys_stripped r f). apply oget_in. exact H.
+Qed.
+
+(* 4b. `message_text` stands for the main argument of the row's type: for EVERY row type of the table.
+   [sw_key flow_cx rt] is the text the row-type cell is looked up under: the cell itself on a tree
+   that reads it raw, the stripped cell on a tree that reads it as the row parser does *)
 Theorem message_text_header cells rt f :
   oget str_eqb cells (cx_sw_column flow_cx) = Some rt ->
-  oget str_eqb (cx_sw_table flow_cx) rt = Some f ->
+  oget str_eqb (cx_sw_table flow_cx) (sw_key flow_cx rt) = Some f ->
   ctx_h2f flow_ctx cells (cx_sw_header flow_cx) = Ok f /\ ctx_h2f flow_ctx cells f = Ok f.
 Proof.
   intros Hrt Hf. rewrite flow_ctx_some. destruct tables_facts as [_ [Hsw [_ [Hnb _]]]]. split.
   - unfold ctx_h2f. rewrite Hnb, str_eqb_refl, Hrt, Hf. reflexivity.
-  - apply long_fixed_h2f. apply (Hsw rt f). apply oget_in. exact Hf.
+  - apply long_fixed_h2f. apply (Hsw (sw_key flow_cx rt) f). apply oget_in. exact Hf.
+Qed.
+
+(* ... and a row type that is not in the table (under the key it is looked up with) is a KeyError *)
+Lemma message_text_header_unknown cells rt :
+  oget str_eqb cells (cx_sw_column flow_cx) = Some rt ->
+  oget str_eqb (cx_sw_table flow_cx) (sw_key flow_cx rt) = None ->
+  ctx_h2f flow_ctx cells (cx_sw_header flow_cx) = Err EKey.
+Proof.
+  intros Hrt Hf. rewrite flow_ctx_some. destruct tables_facts as [_ [_ [_ [Hnb _]]]].
+  unfold ctx_h2f. rewrite Hnb, str_eqb_refl, Hrt, Hf. reflexivity.
 Qed.
 
 (* ---- rows that differ only in the spelling of headers ---- *)
@@ -107,6 +136,10 @@ Inductive hdr_equiv (rt : option str) : str -> str -> Prop :=
 | HE_long_main r f :
     rt = Some r -> oget str_eqb (cx_sw_table flow_cx) r = Some f -> hdr_equiv rt f (cx_sw_header flow_cx).
 
+(* the row type a row is re-keyed under *)
+Definition row_type_key (cells : list (str * str)) : option str :=
+  option_map (sw_key flow_cx) (oget str_eqb cells (cx_sw_column flow_cx)).
+
 Lemma ctx_h2f_ext cx cells cells' h :
   oget str_eqb cells (cx_sw_column cx) = oget str_eqb cells' (cx_sw_column cx) ->
   ctx_h2f (Some cx) cells h = ctx_h2f (Some cx) cells' h.
@@ -114,18 +147,26 @@ Proof. intros H. unfold ctx_h2f. rewrite H. reflexivity. Qed.
 
 Lemma hdr_equiv_h2f cells cells' h h' :
   oget str_eqb cells' (cx_sw_column flow_cx) = oget str_eqb cells (cx_sw_column flow_cx) ->
-  hdr_equiv (oget str_eqb cells (cx_sw_column flow_cx)) h h' ->
+  hdr_equiv (row_type_key cells) h h' ->
   ctx_h2f flow_ctx cells h = ctx_h2f flow_ctx cells' h'.
 Proof.
-  intros Hty HE. inversion HE as [h0|s l Hs|s l Hs|s s' l Hs Hs'|r f Hr Hf|r f Hr Hf]; subst.
-  - rewrite flow_ctx_some. apply ctx_h2f_ext. symmetry. exact Hty.
+  intros Hty HE. unfold row_type_key in HE.
+  destruct (oget str_eqb cells (cx_sw_column flow_cx)) as [rt0|] eqn:Ert0; cbn [option_map] in HE.
+  2:{ inversion HE as [h0|s l Hs|s l Hs|s s' l Hs Hs'|r f Hr Hf|r f Hr Hf]; subst; try discriminate.
+      - rewrite flow_ctx_some. apply ctx_h2f_ext. rewrite Hty, Ert0. reflexivity.
+      - rewrite (proj1 (short_long_headers cells h h' Hs)), (proj2 (short_long_headers cells' h h' Hs)). reflexivity.
+      - rewrite (proj2 (short_long_headers cells h' h Hs)), (proj1 (short_long_headers cells' h' h Hs)). reflexivity.
+      - rewrite (proj1 (short_long_headers cells h l Hs)), (proj1 (short_long_headers cells' h' l Hs')). reflexivity. } inversion HE as [h0|s l Hs|s l Hs|s s' l Hs Hs'|r f Hr Hf|r f Hr Hf]; subst.
+  - rewrite flow_ctx_some. apply ctx_h2f_ext. rewrite Hty, Ert0. reflexivity.
   - rewrite (proj1 (short_long_headers cells h h' Hs)), (proj2 (short_long_headers cells' h h' Hs)). reflexivity.
   - rewrite (proj2 (short_long_headers cells h' h Hs)), (proj1 (short_long_headers cells' h' h Hs)). reflexivity.
   - rewrite (proj1 (short_long_headers cells h l Hs)), (proj1 (short_long_headers cells' h' l Hs')). reflexivity.
-  - rewrite (proj1 (message_text_header cells r h' Hr Hf)).
-    rewrite Hr in Hty. rewrite (proj2 (message_text_header cells' r h' Hty Hf)). reflexivity.
-  - rewrite (proj2 (message_text_header cells r h Hr Hf)).
-    rewrite Hr in Hty. rewrite (proj1 (message_text_header cells' r h Hty Hf)). reflexivity.
+  - injection Hr as Hr. rewrite <- Hr in Hf.
+    rewrite (proj1 (message_text_header cells rt0 h' Ert0 Hf)).
+    rewrite (proj2 (message_text_header cells' rt0 h' Hty Hf)). reflexivity.
+  - injection Hr as Hr. rewrite <- Hr in Hf.
+    rewrite (proj2 (message_text_header cells rt0 h Ert0 Hf)).
+    rewrite (proj1 (message_text_header cells' rt0 h Hty Hf)). reflexivity.
 Qed.
 
 (* an equivalent spelling never touches the column the row type is read from *)
@@ -173,7 +214,7 @@ Qed.
    same contents) are re-keyed to the same row, hence parse to the same result — for EVERY
    row, well-formed or not *)
 Theorem short_long_rekey cells cells' :
-  same_row (oget str_eqb cells (cx_sw_column flow_cx)) cells cells' ->
+  same_row (row_type_key cells) cells cells' ->
   rekey flow_ctx cells = rekey flow_ctx cells'.
 Proof.
   intros H. unfold rekey. apply rekey_congr.
@@ -183,7 +224,7 @@ Proof.
 Qed.
 
 Theorem short_long_layouts cells cells' :
-  same_row (oget str_eqb cells (cx_sw_column flow_cx)) cells cells' ->
+  same_row (row_type_key cells) cells cells' ->
   flow_parse cells = flow_parse cells'.
 Proof.
   intros H. unfold flow_parse, parse_row. change (rm_ctx flow_row_model) with flow_ctx.
